@@ -54,6 +54,7 @@ FIELDS = [
     ("net.tcp.Port", "port", 80),
     ("unix_file_mode", "mode", 0o644),
     ("record", "rec", "<nested>"),
+    ("string", "empty", ""),
 ]
 
 OPS = ["==", "!=", "<", "<=", ">", ">=", "in", "not in"]
@@ -178,9 +179,13 @@ HELPER_CALLS = [
     ("field_equals", "field_equals(r, {F}, ['HELLO'], nocase=False)"),
     ("field_equals", "field_equals(r, {F}, ['nomatch'])"),
     ("field_regex", "field_regex(r, {F}, 'h.l+o')"),
+    ("field_regex", "field_regex(r, {F}, '^\\s*$')"),
+    ("field_regex", "field_regex(r, {F}, '^$')"),
+    ("field_equals", "field_equals(r, {F}, [''])"),
+    ("field_contains", "field_contains(r, {F}, [''], word_boundary=True)"),
     ("field_regex", "field_regex(r, {F}, '^zzz$')"),
 ]
-PRESENT = ["s", "u", "_source"]
+PRESENT = ["s", "u", "_source", "empty"]  # ('empty' holds the zero-length string: a value, not a missing field)
 MISSING = ["nope", "nope2"]
 
 
